@@ -22,7 +22,7 @@ RULE = ("(service, N results, arrival point of the A-RELEASE-RQ relative to the 
         "request was read by the provider at the intended point (FSM in Sta8 observed)")
 ASSUMPTIONS = ["bounded progress: ACSE timeout 1 s, watchdog 10 s", "the peer keeps answering sub-operations it is sent"]
 WORKERS = {"quick": 12, "thorough": 16}
-REQUIRE = {"points_reached": 40, "release_rp_seen": 45, "requestor_points": 8, "pre_first_result_points": 6, "pipelined_points": 5}
+REQUIRE = {"points_reached": 40, "release_rp_seen": 45, "requestor_points": 8, "pre_first_result_points": 6, "pipelined_points": 5, "in_transition_points": 5}
 VER = "1.2.840.10008.1.1"
 CT = "1.2.840.10008.5.1.4.1.1.2"
 FIND = "1.2.840.10008.5.1.4.1.2.1.1"
@@ -57,6 +57,11 @@ def gen_cases(tier, seed):
             cases.append({"role": "acceptor", "svc": svc, "n": n, "point": "pre", "pipelined": True})
     for n in (0, 2):
         cases.append({"role": "acceptor", "svc": "find", "n": n, "point": "pre", "plain": True})
+    # the handler's next between-yields check falls INSIDE the provider's handling of the A-RELEASE-RQ: the indication is already queued
+    # but the transition to Sta8 has not happened yet (an EVT_FSM_TRANSITION notification handler is still running)
+    for svc in ("find", "get", "move"):
+        for k in (0, 1):
+            cases.append({"role": "acceptor", "svc": svc, "n": 2, "point": k, "in_transition": True})
     for svc in ("echo", "store"):
         cases.append({"role": "acceptor", "svc": svc, "n": 0, "point": "during-handler"})
         cases.append({"role": "acceptor", "svc": svc, "n": 0, "point": "after-response"})
@@ -95,7 +100,19 @@ def run_acceptor(case, counters):
     dest_ae = harness.make_ae(title="DEST", timeouts=(1.0, 1.0, 2.0, 1.0), supported=[CT])
     dest_srv, dest_port = harness.start_server(dest_ae, [(evt.EVT_C_STORE, lambda e: 0x0000)])
 
+    in_window = threading.Event()
+    progressed = threading.Event()
+    win = {"used": False}
+
+    def on_fsm(event):
+        if case.get("in_transition") and event.fsm_event == "Evt12" and event.current_state == "Sta6" and not win["used"]:
+            win["used"] = True
+            in_window.set()
+            progressed.wait(1.0)       # until the service handler has been resumed (or was stopped), bounded
+
     def wait_gate(k):
+        if in_window.is_set():
+            progressed.set()
         hist["entered"] += 1
         if point == k:
             at_gate.set()
@@ -138,7 +155,7 @@ def run_acceptor(case, counters):
         return 0x0000
     handlers = [(evt.EVT_C_FIND, on_find_plain if case.get("plain") else on_find), (evt.EVT_C_GET, on_get), (evt.EVT_C_MOVE, on_move), (evt.EVT_C_ECHO, on_echo),
                 (evt.EVT_C_STORE, on_store), (evt.EVT_RELEASED, lambda e: hist.__setitem__("released", hist["released"] + 1)),
-                (evt.EVT_ABORTED, lambda e: hist.__setitem__("aborted", hist["aborted"] + 1))]
+                (evt.EVT_ABORTED, lambda e: hist.__setitem__("aborted", hist["aborted"] + 1)), (evt.EVT_FSM_TRANSITION, on_fsm)]
     server, port = harness.start_server(ae, handlers)
     p = vpeer.Peer.connect(port)
     obs = {}
@@ -220,8 +237,16 @@ def run_acceptor(case, counters):
                         _serve(p, m, seen)
                 if not at_gate.is_set():
                     return [], {"setup": "handler never reached the chosen yield", "seen": seen}, "arrival point not reached"
-                send_release()
-                gate.release()
+                if case.get("in_transition"):
+                    p.send_pdu({"type": "RELRQ"})
+                    rel_sent["t"] = time.time()
+                    if in_window.wait(3.0):
+                        counters["points_reached"] = counters.get("points_reached", 0) + 1
+                        counters["in_transition_points"] = counters.get("in_transition_points", 0) + 1
+                    gate.release()
+                else:
+                    send_release()
+                    gate.release()
             elif point == "during-subop":
                 # withhold the C-STORE response of the first sub-operation, request the release meanwhile
                 deadline = time.time() + 6.0
@@ -424,5 +449,5 @@ def run_case(case):
     counters = {}
     out = (run_acceptor if case["role"] == "acceptor" else run_requestor)(case, counters)
     viol, obs, inc = out
-    return {"key": sha([case["role"], case["svc"], case["n"], case["point"], bool(case.get("pipelined")), bool(case.get("plain"))]), "nontrivial": bool(counters.get("points_reached")),
+    return {"key": sha([case["role"], case["svc"], case["n"], case["point"], bool(case.get("pipelined")), bool(case.get("plain")), bool(case.get("in_transition"))]), "nontrivial": bool(counters.get("points_reached")),
             "sample": {"case": case, "observed": obs}, "violations": viol, "counters": counters, "inconclusive": inc}
